@@ -1,13 +1,117 @@
-(* Props/C08.v -- property C08 (provisional instance through the generated estimator flags; the general theorems are being added) *)
+(* Props/C08.v -- property C08: the regrets computed by the model of src/mccfr/profile.rs (Model/Cfr.v,
+   at the flag values generated from the Rust source) are the textbook external-sampling MCCFR estimator
+   on every tree of external-sampling shape; consequences (payoff-shift invariance, zero regret at
+   indifferent nodes), the regret clamp, and the necessity of both generated flags.
+   Definitions used in the statements: Model/Cfr.v and Spec/SpecCfr.v. *)
 From Coq Require Import NArith QArith List.
-From RP Require Import Gen.GenFixes Model.Cfr.
+From RP Require Import Gen.GenFixes Model.Cfr Spec.SpecCfr.
+From RP Require Proofs.C08_estimator Proofs.C08_shift Proofs.C08_flags Proofs.C08_examples.
 Import ListNotations.
 Open Scope Q_scope.
-(* traverser node with two actions worth 1 and 3 played with probabilities 1/4 and 3/4, below an opponent edge of probability 1/2 *)
-Definition ex_tree : qtree :=
-  T KOpponent 0%N 0 [(7%N, 1#2, T KWalker 1%N 0 [(2%N, 1#4, T KWalker 2%N 1 []); (3%N, 3#4, T KWalker 3%N 3 [])])].
+
+(* ---------- the estimator ---------- *)
+Theorem C08_estimator : forall t, es_shape t -> triples_eq (immediate_regrets_Q t) (regret_estimator_Q t).
+Proof. exact Proofs.C08_estimator.estimator. Qed.
+Print Assumptions C08_estimator.
+
+(* summed per information set (bucket, edge) -- what immediate_regret returns for an infoset with several roots *)
+Theorem C08_estimator_infoset : forall t b e, es_shape t ->
+  sum_gains Q 0 Qplus (immediate_regrets_Q t) b e == sum_gains Q 0 Qplus (regret_estimator_Q t) b e.
+Proof. exact Proofs.C08_estimator.estimator_infoset. Qed.
+Print Assumptions C08_estimator_infoset.
+
+(* hypotheses satisfiable: a 3-level tree (chance / opponent / nested traverser nodes / opponent) *)
+Example C08_example_shape : es_shape ex_tree3 /\ sigma_normalised ex_tree3.
+Proof. exact Proofs.C08_examples.ex_tree3_shape. Qed.
+Print Assumptions C08_example_shape.
+
+Example C08_example_values :
+  map (fun x => (fst x, Qred (snd x))) (immediate_regrets_Q ex_tree3)
+  = [(2%N, 2%N, - (7#4)); (2%N, 3%N, 7#12); (4%N, 2%N, - (16#3)); (4%N, 4%N, 8#3)]
+  /\ map (fun x => (fst x, Qred (snd x))) (regret_estimator_Q ex_tree3)
+  = [(2%N, 2%N, - (7#4)); (2%N, 3%N, 7#12); (4%N, 2%N, - (16#3)); (4%N, 4%N, 8#3)]
+  /\ map (fun x => (fst x, Qred (snd x))) (regret_estimator_Q (shift_payoffs (5#7) ex_tree3))
+  = [(2%N, 2%N, - (7#4)); (2%N, 3%N, 7#12); (4%N, 2%N, - (16#3)); (4%N, 4%N, 8#3)]
+  /\ Qred (mass ex_tree3) = 1.
+Proof. exact Proofs.C08_examples.ex_tree3_values. Qed.
+Print Assumptions C08_example_values.
+
+(* the provisional instance (kept) *)
 Theorem C08_estimator_instance :
   map (fun x => Qred (snd x)) (immediate_regrets_Q ex_tree) = map (fun x => Qred (snd x)) (regret_estimator_Q ex_tree)
   /\ map (fun x => Qred (snd x)) (regret_estimator_Q ex_tree) = [- (3#2); 1#2].
-Proof. vm_compute. split; reflexivity. Qed.
+Proof. exact Proofs.C08_examples.estimator_instance. Qed.
 Print Assumptions C08_estimator_instance.
+
+(* ---------- both generated flags are needed ---------- *)
+(* the flag-parameterised copy of Spec/SpecCfr.v is the model at the generated flag values *)
+Theorem C08_flags_generated : forall t,
+  immediate_regrets_with CFR_ESTIMATOR_EXTERNAL RELATIVE_REACH_STOPS_AT_NODE t = immediate_regrets_Q t.
+Proof. exact Proofs.C08_flags.immediate_regrets_with_generated. Qed.
+Print Assumptions C08_flags_generated.
+
+(* CFR_ESTIMATOR_EXTERNAL = false (original estimator shape): C08_estimator fails *)
+Theorem C08_external_flag_needed :
+  es_shape ex_flag_tree /\ sigma_normalised ex_flag_tree /\
+  ~ triples_eq (immediate_regrets_with false true ex_flag_tree) (regret_estimator_Q ex_flag_tree).
+Proof. exact Proofs.C08_flags.external_flag_needed. Qed.
+Print Assumptions C08_external_flag_needed.
+
+(* RELATIVE_REACH_STOPS_AT_NODE = false (relative reach restarts at nodes sharing the head's bucket): fails *)
+Theorem C08_stops_at_node_flag_needed :
+  es_shape ex_flag_tree /\ sigma_normalised ex_flag_tree /\
+  ~ triples_eq (immediate_regrets_with true false ex_flag_tree) (regret_estimator_Q ex_flag_tree).
+Proof. exact Proofs.C08_flags.stops_at_node_flag_needed. Qed.
+Print Assumptions C08_stops_at_node_flag_needed.
+
+(* ---------- invariance under adding a constant to all payoffs ---------- *)
+Theorem C08_mass_one : forall t, es_shape t -> sigma_normalised t -> mass t == 1.
+Proof. exact Proofs.C08_shift.mass_one. Qed.
+Print Assumptions C08_mass_one.
+
+Theorem C08_shift_invariant : forall t c, es_shape t -> sigma_normalised t ->
+  triples_eq (regret_estimator_Q (shift_payoffs c t)) (regret_estimator_Q t).
+Proof. exact Proofs.C08_shift.shift_invariant. Qed.
+Print Assumptions C08_shift_invariant.
+
+(* with C08_estimator: the regrets the code records are unchanged as well *)
+Theorem C08_shift_invariant_immediate : forall t c, es_shape t -> sigma_normalised t ->
+  triples_eq (immediate_regrets_Q (shift_payoffs c t)) (immediate_regrets_Q t).
+Proof. exact Proofs.C08_shift.shift_invariant_immediate. Qed.
+Print Assumptions C08_shift_invariant_immediate.
+
+(* ---------- zero regret at an indifferent traverser node ---------- *)
+(* the regret list of a node is its own regrets (one per child, traverser nodes only) followed by the lists
+   of its subtrees: so `firstn (length ch)` below is "every regret of that node", and every traverser node
+   of a tree contributes the regrets of its own subtree *)
+Theorem C08_regrets_of_subtrees : forall k b p ch,
+  regret_estimator_Q (T k b p ch) =
+  firstn (match k with KWalker => length ch | _ => O end) (regret_estimator_Q (T k b p ch))
+  ++ flat_map (fun est => regret_estimator_Q (snd est)) ch.
+Proof. exact Proofs.C08_shift.regrets_of_subtrees. Qed.
+Print Assumptions C08_regrets_of_subtrees.
+
+Theorem C08_zero_when_indifferent : forall b p ch v,
+  ch <> [] -> sigma_sum ch == 1 ->
+  Forall (fun est => utilde_Q (snd est) == v) ch ->
+  Forall (fun x => snd x == 0) (firstn (length ch) (regret_estimator_Q (T KWalker b p ch))).
+Proof. exact Proofs.C08_shift.zero_when_indifferent. Qed.
+Print Assumptions C08_zero_when_indifferent.
+
+Example C08_example_indifferent :
+  ex_indifferent <> [] /\ sigma_sum ex_indifferent == 1 /\
+  Forall (fun est => utilde_Q (snd est) == 2) ex_indifferent.
+Proof. exact Proofs.C08_examples.ex_indifferent_hyps. Qed.
+Print Assumptions C08_example_indifferent.
+
+(* ---------- the clamp of regret_vector ---------- *)
+Theorem C08_clamp : forall r,
+  regret_min_Q <= clamp_regret_Q r /\ (regret_min_Q <= r -> clamp_regret_Q r == r).
+Proof. exact Proofs.C08_shift.clamp. Qed.
+Print Assumptions C08_clamp.
+
+Example C08_example_clamp :
+  regret_min_Q == - (300000 # 1) /\ regret_min_Q <= 0 /\
+  clamp_regret_Q (- (400000 # 1)) == - (300000 # 1) /\ clamp_regret_Q (7 # 2) == 7 # 2.
+Proof. exact Proofs.C08_examples.clamp_values. Qed.
+Print Assumptions C08_example_clamp.
